@@ -233,10 +233,13 @@ def State.init : State :=
   { pools := [], slots := List.replicate 8 .empty, mem := #[], blocks := [], nextBlock := 0,
     frees := 0, freed := [], userRegs := [] }
 
-def State.pool? (s : State) (pid : Nat) : Option Pool :=
-  match s.pools[pid]? with
+/-- the live shared state number `pid`, if any -/
+def poolAt (pools : List (Option Pool)) (pid : Nat) : Option Pool :=
+  match pools[pid]? with
   | some (some p) => some p
   | _ => none
+
+abbrev State.pool? (s : State) (pid : Nat) : Option Pool := poolAt s.pools pid
 
 def State.findBlock (s : State) (bid : Nat) : Option Block := s.blocks.find? (fun b => b.id == bid)
 
